@@ -210,6 +210,37 @@ Example pseudoid_unsigned_mapping_accepted :
     (fun _ => false) (fun n => bytes_eqb n (bs "PSEUDOKEY")) false = true.
 Proof. vm_compute. reflexivity. Qed.
 
+(* ---- refuted: members under names the specification does not know do not always leave the
+   required servers unchanged (finding F-C06-1).  encoding/json takes the member named
+   member + U+017F + hip for the membership field; placed after the real one it wins, the invite is
+   treated as a leave and the invited user's server is no longer asked ---- *)
+Definition long_s_membership : bytes := bs "member" ++ [197; 191] ++ bs "hip".
+Definition add_content_member (k : bytes) (v : json) (j : json) : json :=
+  match j with
+  | JObj m => JObj (map (fun kv => if bytes_eqb (fst kv) (bs "content")
+                                   then match snd kv with
+                                        | JObj c => (fst kv, JObj (c ++ [(k, v)]))
+                                        | _ => kv
+                                        end
+                                   else kv) m)
+  | _ => j
+  end.
+Definition ex_invite_lookalike : json := add_content_member long_s_membership (JStr (bs "leave")) ex_invite_v1.
+
+Theorem unknown_members_irrelevant_refuted :
+  exists ver jt j e,
+    wf_event ver jt = true /\ sender_server jt = Some (bs "a.example") /\
+    j = add_content_member long_s_membership (JStr (bs "leave")) jt /\
+    read_event j = Some e /\
+    required_spec ver jt = [bs "a.example"; bs "b.example"; bs "c.example"] /\
+    required_servers ver (LDom (bs "a.example")) e = Some [bs "a.example"; bs "b.example"] /\
+    verify_event ver (LDom (bs "a.example")) j
+      (fun r => mem_bytes (r_server r) [bs "a.example"; bs "b.example"]) false = true.
+Proof.
+  exists (bs "1"), ex_invite_v1, ex_invite_lookalike.
+  eexists. vm_compute. repeat split; reflexivity.
+Qed.
+
 Print Assumptions C06_constants_match_source.
 Print Assumptions validity_rule_per_version.
 Print Assumptions validity_rule_strict_from_v5.
@@ -225,3 +256,4 @@ Print Assumptions verify_all_pointwise.
 Print Assumptions verify_event_pseudoid_sender_self_signed.
 Print Assumptions verify_event_pseudoid_invited_self_signed.
 Print Assumptions verify_event_pseudoid_join_mapping_verified.
+Print Assumptions unknown_members_irrelevant_refuted.
